@@ -359,7 +359,8 @@ def binary_scalar(v, cur, scalar, e, ls):
         if terms.normalise(terms.strip_casts(s)) != scalar:
             continue
         # bit: (first_bits >> (bifb + i)) & 1     or     bextr(first_bits, (bifb | 0x100) + i)
-        m1 = match(("op", "BitAnd", ("const", 1), ("op", "Shr", V("w"), V("sh"))), terms.normalise(b))
+        # (w >> sh) & 1; normalise writes x & 1 as x % 2
+        m1 = match(("op", "Rem", ("op", "Shr", V("w"), V("sh")), ("const", 2)), terms.normalise(b))
         if m1 is not None:
             return terms.find(("item", e["loop"]), m1["sh"]) is not None, "shift does not follow the loop index"
         m2 = match(("call", V("bx", lambda z: isinstance(z, str) and "_bextr2_u32" in z), (V("w"), V("ctl"))), b)
